@@ -16,6 +16,16 @@ CLAIMED = {
          TRUST+"Outside: encoder programs, map-key sorting, JIT output, floats.", TECH),
  "C04": ("Partial. Invalid output of a user Marshaler is rejected unless validation is explicitly disabled, for every 64-bit option word (prim.EncodeJsonMarshaler).",
          TRUST+"json.Compact/alg.Valid are stubs that state their behaviour on the three sample outputs; replays use the real functions. Outside: float round-trip, quote/unquote inverse, NaN/Inf paths.", TECH),
+ "C05": ("Partial (Go side). Every raw-pointer byte load of the repository's pure-Go scanners (skipBlank, skipString, utils.SkipNumber, skipValue/skipValueFast and what they call) lies inside the input object, for all inputs up to 3-4 bytes and all start offsets; the engine's string object has exactly len(s) readable bytes, natively the input ends at a page edge followed by PROT_NONE.",
+         TRUST+"Outside: the native routines' machine code (both SIMD levels), the JIT's inline scanners, alignment effects.", TECH),
+ "C08": ("Partial. The program cache's RCU discipline decided on one symbolic execution from an arbitrary valid cache state: Get stores nothing; Compute never modifies published data except by the atomic publication (copy-on-write) -- sufficient for race freedom and before/after atomicity of Get vs Compute under every interleaving. Buffer pool: a buffer handed to a caller is never also pool-owned (limit boundary included).",
+         TRUST+"Sequentially consistent atomics, lock-set model of sync.Mutex. Outside: first-use compilation races in the reflect/JIT layers, loader registration, other pools.", TECH+" + shared-state (freeze) discipline on the store log"),
+ "C11": ("Partial. The alternative decoder's value-conversion layer on arbitrary well-typed DOM nodes: all integer functors (exact value, range errors, null untouched) for all 2^64 payloads; float32 acceptance iff the rounded value is finite (SMT FP theory); struct field lookup with an escaped key on the DOM the native parser produces.",
+         TRUST+"The DOM given to the functors is what parse_with_padding builds (assumption). Outside: the native DOM parser, map/slice/interface functors, reflective set-up.", TECH),
+ "C16": ("Sufficient condition for every interleaving of readers, decided per ordered pair of read operations on one symbolic execution: on a loaded node (3 and 17 members) no read operation stores to any pre-existing object; on a NewRawConcurrentRead node every store to shared state happens inside the node's write lock.",
+         TRUST+"Lock-set / freeze model (no weak memory); violations are reported from the symbolic run without native replay (a data race is not observable sequentially). Outside: unlocked READS of (t,l,p) racing with the locked conversion, 3+ threads are covered only through the sufficient condition.", TECH+" + shared-state (freeze) discipline on the store log"),
+ "C19": ("Partial: integers and float32 range on the optdec functors (exact to every width, out-of-range rejected, float32 accepted iff the rounded value is finite), for all payloads.",
+         TRUST+"Declined: float64 parse/format exactness (64x64->128 multiplications by table constants: unknown at 60 s on all three solvers), native vsigned/vunsigned/atof machine code, generated range checks.", TECH),
  "C06": ("Ownership of returned buffers decided with ghost pool state: encoder.Encode's result is never pool-owned, never aliased or changed by the next call, on both sides of the pool size limit and for every pool history of length 1; EncodeInto preserves the caller's prefix and stays inside the buffer; StreamDecoder hands the decoder a private copy for every option word.",
          TRUST+"The per-type codec is a stub appending arbitrary bytes; sync.Pool.Get returns New() or any earlier Put (nondeterministic). Outside: generated encoders' space checks, Unmarshal/Get copies.", TECH),
  "C07": ("Partial. No panic and bounded excerpts in error formatting for every source length and every int64 position (calcBounds, SyntaxError/MismatchTypeError formatting); Node.UnmarshalJSON on short input; encoder.HTMLEscape for every destination geometry.",
@@ -24,6 +34,8 @@ CLAIMED = {
          TRUST+"Representation invariant stated in the harness. Outside: loader name mapping, encoder cache key vs pv, compile decisions.", TECH),
  "C12": ("Partial. The Go number wrappers of the VM encoder (alg.F64toa/F32toa) append exactly what the native routine (called directly by the JIT) prints, for all 2^64 / 2^32 bit patterns and buffer geometries.",
          TRUST+"Native f64toa/f32toa are uninterpreted functions of the bit pattern with the facts for +-0 and NaN/Inf. Outside: whole programs VM vs JIT (needs JIT code), flag tests.", TECH),
+ "C13": ("Partial: dispatch wiring only. useSSE()/useAVX2() bind each of the 17 native subroutine addresses and 15 Go entry points to the same-named symbol of the selected instruction-set package (executed symbolically with unique markers on every symbol; natively compared against the real package variables).",
+         TRUST+"Outside: equivalence of the SSE and AVX2 machine code itself (needs the x86 engine), cpu feature detection.", TECH),
  "C14": ("Partial. Node.Get / Index / Searcher.GetByPath on skeleton document families with symbolic keys (duplicates included, 3-member and 17-member objects crossing the hash-index threshold, lazy and fully loaded): the located node is the first occurrence and Raw()/Int64() describe it, for every SearchOptions combination.",
          TRUST+"Natives are represented by the repository's pure-Go scanners (what non-amd64 builds run); strhash is an injective uninterpreted function (64-bit collisions outside the bound). Outside: native get_by_path machine code, Preorder, larger documents.", TECH),
  "C15": ("Bounded histories: all sequences of 2 operations (symbolic arguments) over Set/Unset/Get resp. SetByIndex/UnsetByIndex/Add/Pop on 3-member containers starting raw, lazy or loaded, compared with an ordered model after every step; lazy vs loaded 17-member object.",
